@@ -85,6 +85,8 @@ def generate(rng, opts):
     names = [PK] + [f"{PK}.{m}" for m in rng.sample(["a", "b", "c", "json", "types"], rng.choice([0, 1, 2, 3]))]
     if rng.random() < 0.4:
         names += [f"{PK}.sub", f"{PK}.sub.d"]
+    # the analysed package declares itself a pkgutil-style namespace package (its __init__ really runs `extend_path`)
+    cfg["pkgutil_init"] = rng.random() < 0.2
     std = None
     if rng.random() < 0.25:
         # a sub-package named like a standard-library package, holding compiled modules named like that package's own
@@ -133,7 +135,7 @@ def generate(rng, opts):
         }
         ops.append(op)
     # a long-lived process does not clean sys.modules between two loads
-    return {"world": {"modules": modules, "compiled": compiled, "stubs": stubs}, "ops": ops, "cfg": cfg, "keep_modules": rng.random() < 0.4,
+    return {"world": {"modules": modules, "compiled": compiled, "stubs": stubs, "pkgutil_init": cfg["pkgutil_init"]}, "ops": ops, "cfg": cfg, "keep_modules": rng.random() < 0.4,
             # the user (or the tool embedding Griffe) already has the package directory on sys.path
             "sp_on_sys_path": rng.random() < 0.3}
 
@@ -179,6 +181,8 @@ def render_world(world):
                 lines.append(f"from {imp[5:]} import f as ext_f")
             else:
                 lines.append(f"import {imp}")
+        if world.get("pkgutil_init") and n in (PK, EXT):
+            lines.append("__path__ = __import__('pkgutil').extend_path(__path__, __name__)")
         lines += ["", "def f():", '    """doc"""', "    return 1", "", "class K:", "    x = 1", ""]
         rel = "/".join(n.split(".")) + ("/__init__.py" if n in pkgs else ".py")
         if m.get("latin1"):
